@@ -440,6 +440,10 @@ func (s *authzServer) validateAuthorizationCredentials(context *validationContex
 	// also add all cred IDs to validationContext
 	context.credentialIDs = make([]string, len(vcs))
 	for i, vc := range vcs {
+		if vc.ID == nil {
+			// the claim is the requester's to fill: e.g. "vcs":[{}]
+			return fmt.Errorf(errInvalidVCClaim, errors.New("credential without ID"))
+		}
 		context.credentialIDs[i] = vc.ID.String()
 		if vc.IsType(*credential.NutsAuthorizationCredentialTypeURI) {
 			vcs[j] = vc
